@@ -3,7 +3,7 @@ all integers / all binary64 floats) + E1 (echo through the real engine).  (DESIG
 import time, json, math, struct
 from typing import Optional
 from vf import env
-from vf.env import pick, verdict, observe, safe, build, DictCache
+from vf.env import pick, pickb, verdict, observe, safe, build, DictCache
 from vf.ob import obligation, shard
 
 META = {
@@ -11,7 +11,7 @@ META = {
               "(z3 Int), ALL binary64 floats (z3 FP 11 53), bool, None, opaque str; int/float literal TEXT abstracted as int(text)=n / float(text)=f. "
               "E1: echo queries through Engine.execute for int/bool/None/str values.",
     "outside": "parsing of numeric text (float('1e3'), int('12')) and str(int) rendering are CPython's and are abstracted; numeric STRINGS as resolver output "
-               "for Int/Float (catalogue in C03); Date/Time/DateTime: well-formed components only, bug-hunting (strptime/isoformat run concretely after realisation)",
+               "for Int/Float (catalogue in C03); Date/Time/DateTime: a finite catalogue of whole-second naive values (strptime/isoformat are C-level and realise symbolic text); fractional seconds and time zones are not covered",
     "explanation": "E2 obligations are SMT queries guards ∧ ¬property over the translated kernels: unsat = holds for every value of the kind; sat = model replayed on the real function.",
     "assumptions": ["int(text) == n and float(text) == f abstract the literal text (float(text) may be ±inf for texts like 1e999, never NaN)"],
 }
@@ -592,3 +592,49 @@ def c10_output(tag: int, n: int, b: bool, s: str) -> bool:
     if t == "ID":
         return verdict(isinstance(got, str) and tag in (1, 3) and got == (str(v) if tag == 1 else v))
     return verdict(isinstance(got, str) and (got == v if tag == 3 else True))
+
+
+# ======================================================================================================================
+# Date / Time / DateTime: a catalogue of well-formed (whole-second, naive) and malformed values through the engine.
+# strptime/isoformat are C-level and realise any symbolic text: this part is a finite catalogue, stated as such.
+# ======================================================================================================================
+DT_SDL = "type Query { d(v: Date): Date t(v: Time): Time dt(v: DateTime): DateTime }"
+for _f in ("d", "t", "dt"):
+    Resolver("Query." + _f, schema_name="c10_dt")(_echo)
+ENG_DT = build(DT_SDL, "c10_dt", query_cache_decorator=None)
+GOOD = {"d": ["2020-02-29", "0001-01-01", "9999-12-31", "1999-12-31", "2024-07-04"], "t": ["00:00:00", "23:59:59", "12:30:05", "07:08:09"],
+        "dt": ["2020-02-29T00:00:00", "0001-01-01T23:59:59", "9999-12-31T12:00:00", "2021-06-15T07:08:09"]}
+BADV = {"d": ["2020-13-01", "2021-02-29", "2020-1-1x", "", "abc", "2020-02-29T00:00:00", 5, True, 1.5], "t": ["24:00:00", "12:60:00", "12:00", "", "noon", 5, False],
+        "dt": ["2020-02-30T00:00:00", "2020-02-29", "2020-02-29 00:00:00", "", "x", 7, True]}
+TNAME = {"d": "Date", "t": "Time", "dt": "DateTime"}
+
+
+@obligation(tier="quick", timeout=120, shards=[{"f": f} for f in ("d", "t", "dt")],
+            samples=[{"k": 0, "lit": False}, {"k": 6, "lit": True}],
+            selectors=["k: catalogue value (well-formed then malformed)", "lit: supplied as a string literal or through a variable"],
+            bounds="13-16 values per scalar (catalogue: CPython's strptime/isoformat realise symbolic text)",
+            note="well-formed value: accepted, literal == variable, the echoed text equals the input (output(input(s)) == s, idempotent); malformed or non-string: refused / that field fails, nothing delivered")
+def c10_dates(k: int, lit: bool) -> bool:
+    """
+    post: _
+    """
+    f = shard()["f"]
+    good, bad = GOOD[f], BADV[f]
+    k = pick(k, len(good) + len(bad)); lit = pickb(lit)
+    val = (good + bad)[k]
+    is_good = k < len(good)
+    del SEEN[:]
+    if lit:
+        if not isinstance(val, str):
+            return True
+        q = "{ %s(v: %s) }" % (f, __import__("json").dumps(val))
+        ok, r = safe(lambda: env.run(ENG_DT.execute(q)))
+    else:
+        q = "query Q($v: %s) { %s(v: $v) }" % (TNAME[f], f)
+        ok, r = safe(lambda: env.run(ENG_DT.execute(q, variables={"v": val})))
+    observe(q, val, r, list(SEEN))
+    if not ok:
+        return verdict(False)
+    if is_good:
+        return verdict(not r.get("errors") and r["data"] == {f: val} and len(SEEN) == 1)
+    return verdict(bool(r.get("errors")) and not SEEN)
